@@ -210,6 +210,10 @@ func (ut UnitType) findByAlias(alias string) *Unit {
 // specified alias. It returns nil if the unit with such alias is not found.
 func (ut UnitType) sniffUnit(unit string) *Unit {
 	unit = strings.ToLower(unit)
+	// Try the exact alias first: "μs" is longer than two bytes but is not a plural.
+	if u := ut.findByAlias(unit); u != nil {
+		return u
+	}
 	if len(unit) > 2 {
 		unit = strings.TrimSuffix(unit, "s")
 	}
